@@ -176,6 +176,9 @@ func recordingFinalName(filename string) string {
 
 func deleteTempFiles(directory string) error {
 	matches, _ := filepath.Glob(filepath.Join(directory, "*."+cptvTempExt))
+	// go-cptv streams a recording into <name>.tmp until the recording is closed
+	scratch, _ := filepath.Glob(filepath.Join(directory, "*."+cptvTempExt+".tmp"))
+	matches = append(matches, scratch...)
 	for _, filename := range matches {
 		if err := os.Remove(filename); err != nil {
 			return err
